@@ -349,7 +349,22 @@ def _range_lookup(chk: Check, f, key: str, by_addr: bool) -> None:
         par_ = getattr(r_, "_parent", None)
         is_guard = isinstance(par_, ast.If) and isinstance(par_.test, ast.Compare) and \
             attr_path(par_.test.left) == (me, "address") and isinstance(par_.test.ops[0], ast.Is)
-        if not is_guard:
+        # "the store holds nothing": not <store> / len(<store>) == 0 (the store is the mapping the
+        # loop walks, or its backing SortedDict)
+        STORES = ((me, "symbolic_expressions"), (me, "_symbolic_expressions"), (me, "_symbolic_expressions", "_data"))
+        empty_store = False
+        if isinstance(par_, ast.If) and par_.body and par_.body[0] is r_ or isinstance(par_, ast.If) and r_ in par_.body:
+            t_ = par_.test
+            if isinstance(t_, ast.UnaryOp) and isinstance(t_.op, ast.Not):
+                v_ = al.get(t_.operand.id) if isinstance(t_.operand, ast.Name) and t_.operand.id in al else t_.operand
+                empty_store = attr_path(v_) in STORES
+            elif isinstance(t_, ast.Compare) and len(t_.ops) == 1 and isinstance(t_.ops[0], ast.Eq) \
+                    and isinstance(t_.left, ast.Call) and attr_path(t_.left.func) == ("len",) and t_.left.args \
+                    and isinstance(t_.comparators[0], ast.Constant) and t_.comparators[0].value == 0:
+                v_ = t_.left.args[0]
+                v_ = al.get(v_.id) if isinstance(v_, ast.Name) and v_.id in al else v_
+                empty_store = attr_path(v_) in STORES
+        if not is_guard and not empty_store:
             extra.append(r_)
     chk.ob("R13.3", key + ":no-other-early-exit", not extra, f.loc(extra[0]) if extra else f.loc(),
            "%s returns early on a condition other than 'the interval has no address' (%s): stored "
